@@ -736,6 +736,29 @@ class ModuleVistor(NodeVisitor):
             #       we have the final docstrings for all objects.
             obj.parsed_docstring = None
 
+    def _handleDocstringAssignmentInScope(self, 
+            scope: model.Documentable, 
+            expr: Optional[ast.expr], 
+            lineno: int) -> None:
+        """
+        Handle C{__doc__ = "..."} in the body of a class or at module level.
+        """
+        try:
+            if expr is None:
+                raise ValueError()
+            docstring: object = ast.literal_eval(expr)
+        except (ValueError, TypeError):
+            scope.module.report("Unable to figure out value for __doc__ assignment, "
+                 "maybe too complex", section='ast', lineno_offset=lineno)
+            return
+        if not isinstance(docstring, str):
+            scope.module.report("Ignoring value assigned to __doc__: not a string", 
+                 section='ast', lineno_offset=lineno)
+            return
+        scope.docstring = docstring
+        scope.docstring_lineno = lineno
+        scope.parsed_docstring = None
+
     def _handleAssignment(self,
             targetNode: ast.expr,
             annotation: Optional[ast.expr],
@@ -746,6 +769,11 @@ class ModuleVistor(NodeVisitor):
         if isinstance(targetNode, ast.Name):
             target = targetNode.id
             scope = self.builder.current
+            if target == '__doc__' and not augassign and isinstance(scope, (model.Module, model.Class)):
+                # Assignment to __doc__ in the body of a class (or at module level): 
+                # it's the docstring of the class (or of the module).
+                self._handleDocstringAssignmentInScope(scope, expr, lineno)
+                return
             if isinstance(scope, model.Module):
                 self._handleAssignmentInModule(target, annotation, expr, lineno, augassign=augassign)
             elif isinstance(scope, model.Class):
